@@ -60,7 +60,7 @@ func c05Stress(ctx *Ctx) {
 	wg.Wait()
 }
 
-var reRaceFrame = regexp.MustCompile(`^\s+(github\.com/echovault/sugardb/[^\s(]+)\(`)
+var reRaceFrame = regexp.MustCompile(`^\s+(github\.com/echovault/sugardb/\S+?)\(\)\s*$`)
 
 func c05StressRound(ctx *Ctx, bin string, race bool, rd int, mode string) {
 	root := mkScratch("c05stress")
